@@ -41,7 +41,7 @@ def gtmExtension : List (String × String) :=
 /-- the complete list of places where the framework classes construct a component, derive a framework object or call a package-internal
     numerical routine: a new construction site (e.g. a throw-away second filter built without the user's parameters) is a change of wiring -/
 def sites : List String :=
-  ["Cosmology.cosmo", "MassFunction._gtm/<derived object>.update", "MassFunction._gtm/hmf_integral_gtm", "MassFunction.filter", "MassFunction.hmf",
+  ["Cosmology.cosmo", "MassFunction.<helper>/<derived object>.update", "MassFunction.<helper>/hmf_integral_gtm", "MassFunction.filter", "MassFunction.hmf",
    "MassFunction.mdef", "MassFunction.normalised_filter", "MassFunctionWDM.dndm", "Transfer._unn_sig8/filters.TopHat", "Transfer._unn_sig8/filters.TopHat#2",
    "Transfer.growth", "Transfer.nonlinear_delta_k", "Transfer.transfer", "TransferWDM.wdm", "WDM.__init__.Oc0", "WDM.__init__.cosmo", "WDM.__init__.mx",
    "WDM.__init__.rho_mean"]
